@@ -1,6 +1,7 @@
 package main
 
 import (
+	"errors"
 	"bytes"
 	"context"
 	"crypto/ed25519"
@@ -90,11 +91,26 @@ func testPrivKey(i int) x509.PrivateKey {
 	return k
 }
 
+// closeErrSwarm is a transport whose Close does close it but reports an error (as a UDP socket that its owner already
+// closed does). Whatever is stacked on top must still shut down completely (C12).
+type closeErrSwarm struct{ dyn }
+
+func (c closeErrSwarm) Close() error {
+	c.dyn.Close()
+	return errors.New("close of the inner transport reports an error")
+}
+
+// memCloseErr makes the in-memory base transports of the templates report an error from Close (set per case)
+var memCloseErr bool
+
 func memNodes(n, mtu int, layer func(i int, s dyn) (dyn, dynAsk)) ([]node, error) {
 	r := memswarm.NewRealm(memswarm.WithQueueLen(256), memswarm.WithMTU(mtu))
 	var ret []node
 	for i := 0; i < n; i++ {
 		base := erase[memswarm.Addr](r.NewSwarm())
+		if memCloseErr {
+			base = closeErrSwarm{base}
+		}
 		t, a := layer(i, base)
 		ret = append(ret, node{tell: t, ask: a, close: func() { t.Close() }})
 	}
@@ -144,7 +160,15 @@ var templates = []template{
 	{"multi{a:mem,b:strmux(mem)}", true, func(n, seed int) ([]node, error) {
 		return memNodes(n, 1500, func(i int, s dyn) (dyn, dynAsk) {
 			mx := p2pmux.NewStringMux[p2p.Addr](s)
-			return erase[multiswarm.Addr](multiswarm.New(map[string]multiswarm.DynSwarm{"a": mx.Open("A"), "b": mx.Open("B")})), nil
+			var a, b multiswarm.DynSwarm = mx.Open("A"), mx.Open("B")
+			if memCloseErr { // one of the two transports of the multiswarm reports an error from Close
+				if i%2 == 0 {
+					a = closeErrSwarm{a}
+				} else {
+					b = closeErrSwarm{b}
+				}
+			}
+			return erase[multiswarm.Addr](multiswarm.New(map[string]multiswarm.DynSwarm{"a": a, "b": b})), nil
 		})
 	}},
 	{"mbapp(p2pke(mem400))", true, func(n, seed int) ([]node, error) {
@@ -293,6 +317,7 @@ func udpCtxCase(bad func(string, ...any)) {
 
 func swarmCase(r *rand.Rand, tpl template, seed int, bad func(string, ...any)) (cases int) {
 	nn := 2 + r.Intn(2)
+	memCloseErr = seed%2 == 1
 	nodes, err := tpl.build(nn, seed)
 	if err != nil {
 		return 1 // environment (bind) failure: inconclusive, not a violation
@@ -607,4 +632,27 @@ func askCase(r *rand.Rand, name string, nodes []node, addrs []p2p.Addr, ctx cont
 		}()
 	}
 	wg.Wait()
+	// C09 for asks: a request of up to MTU() bytes is accepted and answered, MTU()+1 is refused with the MTU error
+	from := r.Intn(nn)
+	to := (from + 1) % nn
+	mtu := nodes[from].ask.MTU()
+	if mtu > 8 && mtu <= 1<<21 {
+		for _, size := range []int{mtu - 5, mtu - 4, mtu - 3, mtu - 2, mtu - 1, mtu} {
+			req := make([]byte, size)
+			req[0] = 1 // the handler answers with an empty response
+			actx, cf := context.WithTimeout(ctx, 3*time.Second)
+			n, err := nodes[from].ask.Ask(actx, make([]byte, 16), addrs[to], p2p.IOVec{req})
+			cf()
+			if err != nil || n != 0 {
+				bad("C09 %s: Ask with a request of %d bytes (MTU()=%d) is not answered: n=%d err=%v", name, size, mtu, n, err)
+				break
+			}
+		}
+		actx, cf := context.WithTimeout(ctx, 3*time.Second)
+		_, err := nodes[from].ask.Ask(actx, make([]byte, 16), addrs[to], p2p.IOVec{make([]byte, mtu+1)})
+		cf()
+		if !p2p.IsErrMTUExceeded(err) {
+			bad("C09 %s: Ask with a request of MTU()+1=%d bytes is not refused with the MTU error: %v", name, mtu+1, err)
+		}
+	}
 }
